@@ -231,29 +231,41 @@ AlgorithmLiveSecondTest(c) == MovingOn(c, DbOrder(c), TRUE, TRUE)
 
 EucOrder(c, euc) == SortSeq([i \in Idx(c) |-> i], LAMBDA a, b : euc[a] < euc[b])
 
-\* side condition stated by the properties C06/C04: the nmaxi Euclidean-nearest samples are
-\* all admissible (all the samples when there are fewer than nmaxi).  The parameters must be
-\* consistent (nmini <= nmaxi): a search that examines nmaxi samples only cannot know whether
-\* nmini samples qualify.
+\* Euclidean order of the samples that the cross-validation does not exclude
+EucOrderKept(c, euc) == SelectSeq(EucOrder(c, euc), LAMBDA i : ~Excluded(c, i))
+
+\* side condition stated by the properties C06/C04: the nmaxi Euclidean-nearest samples - the
+\* target itself / its fold, which the cross-validation excludes, left aside - are all admissible
+\* (all of them when there are fewer than nmaxi).  The parameters must be consistent
+\* (nmini <= nmaxi): a search that examines nmaxi samples only cannot know whether nmini qualify.
 BallSide(c, euc) ==
   /\ c.nmaxi >= 1 /\ c.nmini <= c.nmaxi
-  /\ LET o == EucOrder(c, euc)
+  /\ LET o == EucOrderKept(c, euc)
          adm == Admissible(c)
-     IN \A k \in 1..Min2(c.nmaxi, NCand(c)) : o[k] \in adm
+     IN \A k \in 1..Min2(c.nmaxi, Len(o)) : o[k] \in adm
 
-\* what the code does: Ball::getIndices(target, nmaxi) fails (no index) when nmaxi exceeds the
-\* number of samples of the tree; otherwise the nmaxi nearest in increasing Euclidean distance
-BallEligible(c, euc) == IF c.nmaxi > NCand(c) THEN <<>> ELSE SubSeq(EucOrder(c, euc), 1, c.nmaxi)
+\* what the code does: Ball::getIndices(target, MIN(nmaxi, nech)) = the nmaxi nearest samples of
+\* the whole Db (masked ones and the target itself included) in increasing Euclidean distance; the
+\* candidate loop then runs over them only (without the isActive test).
+\* (If gstlearn adopts the repair proposed for the known finding C06-ball-xvalid-fewer - asking for
+\* nmaxi + 1 samples in leave-one-out mode, nmaxi + size of the fold in K-fold mode - the length
+\* of this sub-sequence has to follow.)
+BallEligible(c, euc) == SubSeq(EucOrder(c, euc), 1, Min2(c.nmaxi, NCand(c)))
 BallAlgorithm(c, euc) == MovingOn(c, BallEligible(c, euc), FALSE, FALSE)
+\* TRUE when the pre-selection contains a sample that the cross-validation excludes
+BallHoldsExcluded(c, euc) == \E k \in 1..Len(BallEligible(c, euc)) : Excluded(c, BallEligible(c, euc)[k])
 
 \* why the pre-selection (result `model`) differs from the definition `def` although the side
-\* condition holds
+\* condition holds.  "xvalid": the pre-selection spends slots on the samples that the
+\* cross-validation then removes (pre-selecting the nmaxi nearest of the others gives the definition)
 BallCause(c, euc, model, def) ==
-  IF model = def THEN "none"
-  ELSE IF c.nmaxi > NCand(c) THEN "k-exceeds-n"
-  ELSE IF RangeOf(BallEligible(c, euc)) # Closest(c, Idx(c), c.nmaxi) THEN "metric"
-  ELSE IF c.nsect > 1 THEN "sectors"
-  ELSE "other"
+  LET kept == EucOrderKept(c, euc)
+      eligKept == SubSeq(kept, 1, Min2(c.nmaxi, Len(kept)))
+  IN IF model = def THEN "none"
+     ELSE IF MovingOn(c, eligKept, FALSE, FALSE) = def THEN "xvalid"
+     ELSE IF RangeOf(eligKept) # Closest(c, {i \in Idx(c) : ~Excluded(c, i)}, c.nmaxi) THEN "metric"
+     ELSE IF c.nsect > 1 THEN "sectors"
+     ELSE "other"
 
 -----------------------------------------------------------------------------
 (* Categories of a case (vacuity control of the conformance runs)           *)
